@@ -876,14 +876,14 @@ def cases(tier, rng):
                 recs = [[c, L[c] + int(one), c, 0 + int(one), [L[c] + 1], [1], [2]]] + recs[:2]
         yield "cli_load", {"bins": bins, "format": fmt, "records": recs, "one_based": one, "chunksize": rng.choice([None, 1, 2, 3]),
                            "duplex": k % 5 == 2, "no_symm": k % 7 == 3, "header": ["comment"][: k % 2], "kind": f"cli:{label}"}
-    if thorough:
+    if True:   # the tabix loader is also exercised in the quick tier (seeded changes C05-1, C05-3 live there)
         try:
             import pysam  # noqa
             have = True
         except Exception:
             have = False
         if have:
-            for k in range(60):
+            for k in range(60 if thorough else 18):
                 label, bins = tabs[k % len(tabs)]
                 zero = k % 2 == 0
                 L = _sizes(bins)
